@@ -75,14 +75,14 @@ package errbase
 //@ unfold complete(e) = wrapperOf(e) != nil ? completeWrapper(wrapperOf(e)) : completeLeaf(leafOf(e))
 
 //@ func DecodeError
-//@   props C05 C01 C04 C11 C13 C02 C20
+//@   props C05 C01 C04 C11 C13 C02 C20 C17
 //@   requires complete(enc)
 //@   defines decOf(enc)
 //@   ensures result != nil
 //@   requires[C03,C12] safeEnc(enc)
 
 //@ func decodeLeaf
-//@   props C05 C01 C04 C11 C13 C02 C20
+//@   props C05 C01 C04 C11 C13 C02 C20 C17
 //@   purecalls
 //@   requires completeLeaf(enc)
 //@   ensures result != nil
@@ -94,7 +94,7 @@ package errbase
 //@   requires[C03,C12] safeEncLeaf(enc)
 
 //@ func decodeWrapper
-//@   props C05 C01 C04 C11 C02 C20
+//@   props C05 C01 C04 C11 C02 C20 C17
 //@   purecalls
 //@   requires completeWrapper(enc)
 //@   ensures result != nil
@@ -271,7 +271,7 @@ package errbase
 //@   ensures result == (payload == nil ? nil : anyOf(payload))
 
 //@ func EncodeError
-//@   props C01 C02 C04 C11 C13 C20
+//@   props C01 C02 C04 C11 C13 C20 C17
 //@   requires err != nil
 //@   defines encOf(err)
 //@   ensures (cause1(err) != nil) == (wrapperOf(result) != nil)
@@ -280,7 +280,7 @@ package errbase
 //@   ensures[C03] safeEnc(result)
 
 //@ func encodeWrapper
-//@   props C01 C02 C04 C11 C20
+//@   props C01 C02 C04 C11 C20 C17
 //@   purecalls
 //@   requires err != nil && cause != nil && cause == cause1(err)
 //@   ensures wrapperOf(result) != nil && leafOf(result) == nil && completeWrapper(wrapperOf(result))
@@ -292,7 +292,7 @@ package errbase
 //@   ensures (!typeis(err, *opaqueWrapper) && !encoders.has(keyOf(err))) ==> reasm(wrapperOf(result).Message, wrapperOf(result).MessageType, msg(cause)) == msg(err) && wrapperOf(result).Details.ReportablePayload == safeDetailsOf(err) && wrapperOf(result).Details.FullDetails == nil
 
 //@ func encodeLeaf
-//@   props C01 C02 C04 C11 C13 C20
+//@   props C01 C02 C04 C11 C13 C20 C17
 //@   purecalls
 //@   requires err != nil && cause1(err) == nil
 //@   requires forall i int :: 0 <= i && i < len(causes) ==> causes[i] != nil
